@@ -8,7 +8,7 @@ namespace SoyVerif.Model.Lex
 open SoyVerif SoyVerif.Model
 
 /-- `lexNegative`, called by lexInsideTag (`l0`) right after reading '-' -/
-theorem lexNegative_sat {n : Int} {l0 l : Lexer} (hn : l.len = n) (h0 : 0 ≤ l.start)
+theorem lexNegative_sat {n : Int} {l0 l : Lexer} (hn : l.len = n ∧ (l.mp : Int) ≤ n ∧ 0 ≤ l.tagStart ∧ l.tagStart ≤ n) (h0 : 0 ≤ l.start)
     (h1 : l.start ≤ l0.pos) (h2 : l.pos ≤ n) (hadv : l0.pos < l.pos) (hn0 : l0.pos < n) :
     Sat (lexNegative l) (Post n .insideTag l0) := by
   unfold lexNegative
@@ -51,7 +51,7 @@ theorem isLetterOrUnderscore_nonneg {r : Int} (h : isLetterOrUnderscore r = true
   simp only [isLetterOrUnderscore, Bool.or_eq_true, Bool.and_eq_true, decide_eq_true_eq, beq_iff_eq] at h
   omega
 
-theorem lexSymbol_sat {n : Int} {l0 l : Lexer} (hn : l.len = n) (h0 : 0 ≤ l.start)
+theorem lexSymbol_sat {n : Int} {l0 l : Lexer} (hn : l.len = n ∧ (l.mp : Int) ≤ n ∧ 0 ≤ l.tagStart ∧ l.tagStart ≤ n) (h0 : 0 ≤ l.start)
     (h1 : l.start ≤ l0.pos) (h2 : l.pos ≤ n) (hadv : l0.pos < l.pos) :
     Sat (lexSymbol l) (Post n .insideTag l0) := by
   unfold lexSymbol
@@ -63,12 +63,12 @@ theorem lexSymbol_sat {n : Int} {l0 l : Lexer} (hn : l.len = n) (h0 : 0 ≤ l.st
   apply sliceOf_sat (by lx) (by lx) (by lx)
   intro sym _
   split
-  · first | exact errorf_sat | exact errorfAt_sat
+  · first | exact errorf_sat (by lx) | exact errorfAt_sat (by lx)
   · exact emitInside_sat (by lx) (by lx) (by lx) (by lx) (by lx)
 
 /-- facts about the lexer handed to the later cases of lexInsideTag: `r` was read from `l0`;
     unless a case condition peeked (`r` = '/' or '='), `backup` returns to `l0.pos` -/
-theorem lexInsideTagRest_sat {n : Int} {l0 l : Lexer} {r : Int} (hn : l.len = n) (h0 : 0 ≤ l.start)
+theorem lexInsideTagRest_sat {n : Int} {l0 l : Lexer} {r : Int} (hn : l.len = n ∧ (l.mp : Int) ≤ n ∧ 0 ≤ l.tagStart ∧ l.tagStart ≤ n) (h0 : 0 ≤ l.start)
     (h1 : l.start ≤ l0.pos) (h2 : l.pos ≤ n)
     (hr : (r = -1 ∧ l.pos = l0.pos) ∨ (0 ≤ r ∧ l0.pos < l.pos))
     (hb : r = 47 ∨ r = 61 ∨ l.pos - l.width = l0.pos) :
@@ -79,7 +79,7 @@ theorem lexInsideTagRest_sat {n : Int} {l0 l : Lexer} {r : Int} (hn : l.len = n)
   split
   · exact emitInside_sat (by lx) (by lx) (by lx) (by lx) (by lx)
   split
-  · first | exact errorf_sat | exact errorfAt_sat
+  · first | exact errorf_sat (by lx) | exact errorfAt_sat (by lx)
   split
   · exact emitInside_sat (by lx) (by lx) (by lx) (by lx) (by lx)
   split
@@ -90,10 +90,10 @@ theorem lexInsideTagRest_sat {n : Int} {l0 l : Lexer} {r : Int} (hn : l.len = n)
   · exact emitInside_sat (by lx) (by lx) (by lx) (by lx) (by lx)
   split
   · fin
-  · first | exact errorf_sat | exact errorfAt_sat
+  · first | exact errorf_sat (by lx) | exact errorfAt_sat (by lx)
 
 set_option maxHeartbeats 1000000 in
-theorem lexInsideTagMid_sat {n : Int} {l0 l : Lexer} {r : Int} (hn : l.len = n) (h0 : 0 ≤ l.start)
+theorem lexInsideTagMid_sat {n : Int} {l0 l : Lexer} {r : Int} (hn : l.len = n ∧ (l.mp : Int) ≤ n ∧ 0 ≤ l.tagStart ∧ l.tagStart ≤ n) (h0 : 0 ≤ l.start)
     (h1 : l.start ≤ l0.pos) (h2 : l.pos ≤ n)
     (hr : (r = -1 ∧ l.pos = l0.pos) ∨ (0 ≤ r ∧ l0.pos < l.pos ∧ (128 ≤ r ∨ l.pos = l0.pos + 1)))
     (hb : r = 47 ∨ l.pos - l.width = l0.pos) :
